@@ -1481,6 +1481,16 @@ func (e *Exec) convert(fr *Frame, ins ssa.Instruction, v Value, from, to types.T
 		if bv, ok := v.(BytesV); ok {
 			return bv.S
 		}
+		if cv, ok := v.(chunksV); ok {
+			var ts []*Term
+			for _, c := range cv.cs {
+				if c.num {
+					e.unsupported("string conversion of binary chunks")
+				}
+				ts = append(ts, c.t)
+			}
+			return StrV{T: tf.Concat(ts...)}
+		}
 	}
 	if st, ok := to.Underlying().(*types.Slice); ok && isString(from) {
 		s := v.(StrV)
